@@ -1,11 +1,9 @@
 """Assembles the U9 scratch Kani crate from /repo's current text.
 
-  src/tok.rs                 hand-written: the String / f64 type substitution (see file header)
-  src/vm.rs                  `pub type AbraInt = i64;` + real `checked_pow_int` (vm.rs)
-  src/assembly.rs            real `type Label`, `enum Line`, `enum Instr`, `enum Reg`, `impl Reg` (assembly.rs)
-  src/optimize_bytecode.rs   real `optimize`, `optimization_pass`, `peephole{1,2,3}_helper`, `impl Instr {..}`
-                             VERBATIM, its two `use` lines verbatim, + one prepended `use crate::tok::{String, f64};`
-                             + generated support + lifted fold arms + hand-written harnesses (module u9h)
+  src/tok.rs        hand-written: the String / f64 type substitution (see file header)
+  src/assembly.rs   real `type Label`, `enum Line`, `enum Instr`, `enum Reg`, `impl Reg` (assembly.rs)
+  src/folds.rs      float constant-fold arms lifted from peephole3_helper (real guard + real body),
+                    vm_err_<Op> / vm_val_<Op> cut from the VM arm of the same opcode, harnesses
 """
 import os
 import re
@@ -131,49 +129,25 @@ def float_fold_harness(op, value_check):
 
 
 def build(dirpath):
+    """Scratch Kani crate: tok.rs (type substitution), the real assembly.rs types + `impl Reg`,
+    and module `folds` = lifted float-fold arms of peephole3_helper + error condition / stored
+    expression cut from the VM arms + harnesses."""
     enum, variants = gen.asm_variants()
-    lay = gen.layout()
-    tw = gen.twins(variants)
     a2v = gen.asm_to_vm()
-    notes = dict(variants=len(variants), twins=len(tw))
-    # ---- assembly.rs
-    asm = ["use crate::tok::String;", "use crate::vm::AbraInt;",
+    asm = ["use crate::tok::String;", "pub type AbraInt = i64;",
            S.item(ASM, r'pub\(crate\) type Label = String;'), S.item(ASM, r'pub\(crate\) enum Line \{'), enum,
            S.item(ASM, r'pub enum Reg \{'), S.item(ASM, r'impl Reg \{')]
-    # ---- vm.rs
-    vm = ["pub type AbraInt = i64;", S.item(VM, r'pub\(crate\) fn checked_pow_int\(')]
     if not re.search(r'pub type AbraInt = i64;', S.read(VM)):
         raise S.SliceError("vm.rs: `pub type AbraInt = i64;` not found")
-    # ---- optimize_bytecode.rs
-    src = S.read(OPT)
-    uses = re.findall(r'^use [^\n]*;\n', src, re.M)
-    if uses != ["use crate::assembly::{Instr, Line, Reg};\n", "use crate::vm::{AbraInt, checked_pow_int};\n"]:
-        raise S.SliceError("optimize_bytecode.rs: unexpected use lines %r" % uses)
-    items = [S.item(OPT, rx) for rx in OPT_ITEMS]
-    impl = items[-1]
-    for mname in REQUIRED_METHODS:
-        if not re.search(r'^    fn %s\(' % mname, impl, re.M):
-            raise S.SliceError("impl Instr: method %s not found" % mname)
-    # is anything else in the file?  (comments / blank lines only)
-    rest = src
-    for t in uses + items:
-        if rest.count(t) != 1:
-            raise S.SliceError("optimize_bytecode.rs: slice not found exactly once")
-        rest = rest.replace(t, '')
-    rest = re.sub(r'/\*.*?\*/', '', rest, flags=re.S)
-    rest = re.sub(r'//[^\n]*', '', rest).strip()
-    notes['unsliced_remainder_of_optimize_bytecode_rs'] = rest[:200]
     folds, fmeta = lifted_float_folds(a2v)
     harness = open(os.path.join(HERE, 'harness.rs')).read()
     fh = ''.join(float_fold_harness(op, op in ('AddFloat', 'SubFloat', 'MulFloat')) for op in FLOAT_FOLDS)
-    opt = ("// prepended by units/u9_opt (type substitution, see tok.rs)\nuse crate::tok::{String, f64};\n"
-           + ''.join(uses) + '\n' + '\n\n'.join(items) + "\n\n#[cfg(kani)]\nmod u9h {\nuse super::*;\n"
-           + gen.rust_support(variants, lay, tw) + folds + harness + fh + "}\n")
+    mod = ("// type substitution, see tok.rs\nuse crate::tok::{String, f64};\nuse crate::assembly::{Instr, Line, Reg, AbraInt};\n#[allow(non_camel_case_types)]\ntype pf64 = core::primitive::f64;\n"
+           + folds + "\n#[cfg(kani)]\nmod u9h {\nuse super::*;\n" + harness + fh + "}\n")
     os.makedirs(os.path.join(dirpath, 'src'), exist_ok=True)
-    for name, text in (('Cargo.toml', CARGO), ('src/lib.rs', LIB), ('src/assembly.rs', '\n\n'.join(asm) + '\n'),
-                       ('src/vm.rs', '\n\n'.join(vm) + '\n'), ('src/optimize_bytecode.rs', opt),
-                       ('src/tok.rs', open(os.path.join(HERE, 'tok.rs')).read())):
+    lib = LIB.replace("pub mod vm;\n", "").replace("pub mod optimize_bytecode;", "pub mod folds;")
+    for name, text in (('Cargo.toml', CARGO), ('src/lib.rs', lib), ('src/assembly.rs', '\n\n'.join(asm) + '\n'),
+                       ('src/folds.rs', mod), ('src/tok.rs', open(os.path.join(HERE, 'tok.rs')).read())):
         with open(os.path.join(dirpath, name), 'w') as f:
             f.write(text)
-    sha = dict(opt=S.sha(''.join(items)), enum=S.sha(enum), instr_to_vminstr=S.sha(S.item(ASM, r'fn instr_to_vminstr\(')))
-    return dict(variants=variants, layout=lay, twins=tw, notes=notes, fold_meta=fmeta, sha=sha)
+    return dict(fold_meta=fmeta, sha=dict(enum=S.sha(enum), reg_impl=S.sha(S.item(ASM, r'impl Reg \{'))))
